@@ -44,9 +44,26 @@ def prefix_siblings(rng):
     return {"tree": tree, "steps": steps}
 
 
+def deep_nesting(rng):
+    """histories nested three and four levels deep, each sealed from inside first: every file goes to the deepest history
+    containing it, however far below the command's folder that is"""
+    c = lambda: gen.gen_content(rng) or "0d"  # noqa
+    tree = {"top.bin": {"f": c()}, "AAA": {"d": {"a.txt": {"f": c()}, "BBB": {"d": {"b.txt": {"f": c()}, "CCC": {"d": {"c.txt": {"f": c()}, "DDD": {"d": {"d.txt": {"f": c()}}}}}}}}}}
+    steps = []
+    levels = ["AAA/BBB/CCC/DDD", "AAA/BBB/CCC", "AAA/BBB", "AAA"]
+    for lv in levels[rng.choice([0, 1]):]:
+        if rng.random() < 0.85:
+            steps.append({"op": "create", "root": lv, "fmts": gen.gen_fmts(rng)})
+    steps += [{"op": "create", "fmts": gen.gen_fmts(rng)}, {"op": "add", "path": "AAA/BBB/CCC/new.txt", "data": c()},
+              {"op": "create", "fmts": gen.gen_fmts(rng)}, {"op": "verify"}, {"op": "info"}]
+    return {"tree": tree, "steps": steps}
+
+
 def scenario(rng, i):
     if i % 10 == 4:
         return prefix_siblings(rng)
+    if i % 10 == 9:
+        return deep_nesting(rng)
     if i % 20 == 7:
         tree = big_tree(rng)
         steps = [{"op": "create", "fmts": gen.gen_fmts(rng)}, {"op": "verify"}]
